@@ -1,6 +1,6 @@
 #!/usr/bin/env python3
 """Freeze per-rule instance floors from the evidence of a green run: audit/floors.json.
-floor = 1 for counts below 10 (non-vacuity only: a refactor that merges duplicated sites must not trip it), half the count from 10 up."""
+floor = 1 for counts below 40 (non-vacuity only: a refactor that merges duplicated sites into a helper must not trip it), a quarter of the count from 40 up (table-driven rules)."""
 import json,glob,os,math
 here=os.path.dirname(os.path.dirname(os.path.abspath(__file__)))
 out={}
@@ -11,7 +11,7 @@ for f in sorted(glob.glob(os.path.join(here,'evidence','C*.json'))):
     for r,v in rules.items():
         n=v['instances']
         if n<=0: continue
-        fl[r]= 1 if n<10 else n//2
+        fl[r]= 1 if n<40 else n//4
     out[pid]=fl
 json.dump(out,open(os.path.join(here,'audit','floors.json'),'w'),indent=1,sort_keys=True)
 print(sum(len(v) for v in out.values()),'rule floors for',len(out),'properties')
